@@ -381,18 +381,34 @@ class Tie:
                 continue   # bufferify / CFI clones copy the list but generic_function never runs on them
             same = [m for m in index if m is not n and isinstance(m.fortran_generic, list) and m.fortran_generic
                     and m._PTR_C_CXX_index is None and m.decl == n.decl and m.ast.name == n.ast.name]
+            group = [n]
             if same:
-                self.skipped += 1   # default-argument clones of a generic function share the declaration text
-                continue
-            clones = [c for c in index if c._generated == "fortran_generic" and c.decl == n.decl
-                      and c.ast.name == n.ast.name and getattr(c, "parent", None) is getattr(n, "parent", None)]
-            if len(clones) != len(gl):
+                # default-argument clones of a generic function share the declaration text; generic_function is
+                # run on each of them (clones first, in creation order, then the function itself), each with its
+                # own cvariants table, and appends its Fortran clones consecutively
+                allm = sorted([n] + same, key=lambda m: pos[id(m)])
+                if allm[0] is not n:
+                    continue   # handled when the first member of the group was visited
+                dflt = [m for m in allm if m._generated == "has_default_arg"]
+                rest = [m for m in allm if m._generated != "has_default_arg"]
+                if len(rest) != 1:
+                    self.skipped += 1
+                    continue
+                group = dflt + rest
+            clones = sorted([c for c in index if c._generated == "fortran_generic" and c.decl == n.decl
+                             and c.ast.name == n.ast.name and getattr(c, "parent", None) is getattr(n, "parent", None)],
+                            key=lambda c: pos[id(c)])
+            if len(clones) != len(gl) * len(group):
                 self.skipped += 1
                 continue
-            nxt = pos[id(clones[0])]
-            self.lines.append("gtargets %d %d %s %s" % (s_i, nxt, feat(n.ast.params), " ".join(feat(g.decls) for g in gl)))
-            self.expect.append(("gtargets", "%s:%s" % (tag, n.declgen or n.decl),
-                                [c._PTR_F_C_index for c in clones], None))
+            for gi, m in enumerate(group):
+                mine = clones[gi * len(gl):(gi + 1) * len(gl)]
+                self.lines.append("gtargets %d %d %s %s" % (pos[id(m)], pos[id(mine[0])], feat(m.ast.params),
+                                                            " ".join(feat(g.decls) for g in m.fortran_generic)))
+                self.expect.append(("gtargets", "%s:%s%s" % (tag, m.declgen or m.decl, " (default-argument clone)" if m is not n or same and m._generated == "has_default_arg" else ""),
+                                    [c._PTR_F_C_index for c in mine], None))
+                if len(group) > 1:
+                    self.n_dflt_generic = getattr(self, "n_dflt_generic", 0) + 1
         # ---- generic interfaces: model over nodes in emission order
         emis = [n for _m, _c, n in fns]
         if emis and all(id(n) in pos for n in emis):
@@ -477,5 +493,6 @@ class Tie:
                 if model:
                     ctx.nontrivial(("generics", tag))
         return bad, {"assembled_functions": n_asm, "routes": n_route, "generic_tables": n_gen, "generic_clone_routings": getattr(self, "n_gt", 0),
-                     "multi_hop_routes": getattr(self, "n_multihop", 0), "skipped": self.skipped,
+                     "multi_hop_routes": getattr(self, "n_multihop", 0),
+                     "generic_routings_of_default_argument_clones": getattr(self, "n_dflt_generic", 0), "skipped": self.skipped,
                      "f_entries_reached": sorted(x for x in self.entries_f if x), "c_entries_reached": sorted(x for x in self.entries_c if x)}
